@@ -153,8 +153,8 @@ class Prop(SeqProp):
     pid = "C13"
     model = "records"
     anchors = ["windpyutils/files.py"]
-    quick_cases = 900
-    thorough_cases = 3000
+    quick_cases = 1500
+    thorough_cases = 12000
     rule = ("string records over an alphabet of delimiter, tab, quote, backslash, blank, non-ASCII, unicode line separators "
             "and empty strings: Lean csv writer vs CSVRecord/TSVRecord.save and Lean reader vs load on every generated row (with "
             "terminator, with the trailing \\r a saved record file leaves, and bare); runs of consecutive saves across three "
@@ -694,6 +694,8 @@ class Prop(SeqProp):
                     if handed is not None and rng.random() < 0.4:
                         r = handed  # the same object again, changed in between
                         change(r)
+                    elif cur and rng.random() < 0.3:
+                        r = copy.deepcopy(rng.choice(cur)[0])  # an equal record: duplicates in the file
                     else:
                         r = mkrec()
                     snap = (copy.deepcopy(r), None)
@@ -703,8 +705,13 @@ class Prop(SeqProp):
                         i = rng.randint(0, len(cur)); f.insert(i, r); cur.insert(i, snap); handed = r
                     elif q < 0.7:
                         f.append(r); cur.append(snap); handed = r
-                    elif q < 0.8 and cur:
+                    elif q < 0.76 and cur:
                         i = rng.randrange(len(cur)); del f[i]; del cur[i]
+                    elif q < 0.8 and cur:
+                        # list.remove: the first position holding an equal record
+                        victim = copy.deepcopy(rng.choice(cur)[0])
+                        f.remove(victim)
+                        del cur[recs().index(victim)]
                     elif q < 0.9 and cur:
                         i = rng.randrange(len(cur))
                         got = f[i]
@@ -720,6 +727,12 @@ class Prop(SeqProp):
                                    for k, (r_, raw_) in enumerate(cur)]
                     if list(f) != recs():
                         return f"fail recfile edit {cls.__name__}: {list(f)!r} != {recs()!r}"
+                # the inherited Sequence interface (index with bounds, count, in, reversed) beside the list of records
+                from .. import mixins
+                probes = [copy.deepcopy(x) for x in recs()[:2] + recs()[-1:]] + [mkrec()]
+                mix = mixins.sequence_battery(f, recs(), probes)
+                if mix is not None:
+                    return f"fail recfile inherited interface {cls.__name__}: {mix} (source lines {raws!r})"
                 dst = self.path("rec_dst.txt")
                 f.save(dst, ending) if ending != "\n" else f.save(dst)
             want = "".join((raw if raw is not None else r.save().rstrip("\n")) + ending for r, raw in cur)
